@@ -44,6 +44,7 @@ def gen(run):
     raw += list(W.sequences(3 if quick else 4, FLAGSETS_Q if quick else FLAGSETS_ALL))
     raw += list(W.frame_sequences(2 if quick else 3, [0, W.ALPHA] if quick else [0, W.ALPHA, W.EXIF]))
     raw += list(W.frame_orders(2 if quick else 3))
+    raw += list(W.empty_trailers())
     if not quick:
         raw += list(W.sequences(5, FLAGSETS_Q, allows=(True,), sample=0.15, rng=run.rng))
     lines = W.with_tables(run, [l for l, _ in raw])
